@@ -158,6 +158,13 @@ class Flow:
                         v = ('str', w)
                         if v in tgt:
                             continue
+                elif v[0] == 'str' and v[1][0] == 'lit' and len(v[1][1]) > 24:
+                    # x = x + 'literal' feeds its own result back: ever longer literals
+                    nlit = len([1 for w in tgt if w[0] == 'str' and w[1][0] == 'lit' and len(w[1][1]) > 24])
+                    if nlit >= 24:
+                        v = ('str', ('any', 'widened') if not no_linebreak(v[1]) else ('noline',))
+                        if v in tgt:
+                            continue
                 tgt[v] = (src, note)
                 self.changed = True
 
